@@ -133,8 +133,13 @@ def run(res, tier, lean, proof_breaks=(), build_log=""):
             ttok = f"T {k} " + " ".join(toks)
             spellings = [("s", "d"), (os.path.join(base, "s"), os.path.join(base, "d")), ("", "d"),
                          (b"s", b"d"), ("d", "d"), ("d/d", "d"), ("x/s", "./d")]
+            # old-directory paths that are not in normal form (what an emitter reports for a watch on "." or on a
+            # path with a doubled slash): the source must be the old path EXACTLY AS GIVEN followed by the relative path
+            odd = [("./s", "./d"), ("x//s", "d"), ("x/../s", "d"), (b"./s", b"./d")]
             if not thorough and i > 40:
-                spellings = r.sample(spellings, 3)
+                spellings = r.sample(spellings, 3) + r.sample(odd, 1)
+            else:
+                spellings = spellings + odd
             for src, dst in spellings:
                 evs = list(generate_sub_moved_events(src, dst))
                 lines.append(f"submoved {enc(src)} {enc(dst)} {ttok}")
@@ -166,6 +171,12 @@ def run(res, tier, lean, proof_breaks=(), build_log=""):
     # watch-map re-keying (Inotify.read_events): the real dict manipulation on a stub instance
     rk_bad = rekey_cases(res, lean, r)
 
+    # emitter level: the synthetic events of a renamed / arrived directory under event filters that accept only one
+    # flavour - every descendant of the accepted flavour must still get its event
+    fv = filtered_emitter_cases(res)
+    if fv:
+        res.violation(fv[0], fv[1], signature="c14-filtered-sub-events")
+
     if bad:
         bad.sort(key=lambda b: len(b[0]))
         line, i, o, mt = bad[0]
@@ -181,6 +192,57 @@ def run(res, tier, lean, proof_breaks=(), build_log=""):
             f"watch-map re-keying after a directory rename differs from the prefix rewrite: {i!r} expected {o!r}",
             {"request": line, "implementation": i, "model": o, "mismatching_cases": len(rk_bad)},
             signature="c14-rekey")
+
+
+def filtered_emitter_cases(res):
+    import tempfile
+    import time
+
+    from watchdog.events import (DirCreatedEvent, DirMovedEvent, FileCreatedEvent, FileMovedEvent,
+                                 FileSystemEventHandler)
+    from watchdog.observers.inotify import InotifyObserver
+
+    for flt, want_cls in (([FileMovedEvent, FileCreatedEvent], ("FileMovedEvent", "FileCreatedEvent")),
+                          ([DirMovedEvent, DirCreatedEvent], ("DirMovedEvent", "DirCreatedEvent"))):
+        base = os.path.realpath(tempfile.mkdtemp(prefix="wdverif-c14-", dir=os.environ.get("TMPDIR") or None))
+        obs = InotifyObserver()
+        try:
+            w, o = os.path.join(base, "W"), os.path.join(base, "O")
+            for d in (w, o, os.path.join(w, "d"), os.path.join(w, "d", "dd"), os.path.join(o, "x"), os.path.join(o, "x", "dd")):
+                os.mkdir(d)
+            for f in (os.path.join(w, "d", "a"), os.path.join(w, "d", "dd", "b"), os.path.join(o, "x", "a"), os.path.join(o, "x", "dd", "b")):
+                open(f, "w").close()
+            got = []
+
+            class H(FileSystemEventHandler):
+                def on_any_event(self, e):
+                    got.append((type(e).__name__, os.path.relpath(e.src_path, base) if e.src_path else "",
+                                os.path.relpath(e.dest_path, base) if e.dest_path else "", e.is_synthetic))
+
+            obs.schedule(H(), w, recursive=True, event_filter=flt)
+            obs.start()
+            time.sleep(0.1)
+            os.rename(os.path.join(w, "d"), os.path.join(w, "e"))          # renamed inside the tree
+            os.rename(os.path.join(o, "x"), os.path.join(w, "y"))          # arrives from outside
+            time.sleep(0.9)
+            res.count()
+            res.bump("filtered_emitter_runs")
+            if want_cls[0].startswith("File"):
+                need = {("FileMovedEvent", "W/d/a", "W/e/a"), ("FileMovedEvent", "W/d/dd/b", "W/e/dd/b"),
+                        ("FileCreatedEvent", "W/y/a", ""), ("FileCreatedEvent", "W/y/dd/b", "")}
+            else:
+                need = {("DirMovedEvent", "W/d/dd", "W/e/dd"), ("DirCreatedEvent", "W/y/dd", "")}
+            have = {(c, s_, d_) for c, s_, d_, syn in got if syn}
+            missing = need - have
+            if missing:
+                return (f"under the event filter {[c.__name__ for c in flt]} the synthetic events of a renamed / arrived directory "
+                        f"lack {sorted(missing)} (one event per descendant of the accepted flavour is required)",
+                        {"filter": [c.__name__ for c in flt], "delivered": got, "missing": sorted(missing)})
+        finally:
+            obs.stop()
+            obs.join(5)
+            shutil.rmtree(base, ignore_errors=True)
+    return None
 
 
 def rekey_cases(res, lean, r):
